@@ -437,6 +437,8 @@ class Bounds:
             preds = cfg.preds.get(b, [])
             if b == cfg.entry or not preds:
                 ef = getattr(self, 'entry_facts', {}).get(X)
+                if ef is None and not is_member:
+                    ef = self._param_entry(X, depth)
                 if ef is None and not getattr(self, '_no_field_inv', False):
                     ef = self._field_invariant(node)
                 results.append(ef if ef is not None else B())
@@ -856,6 +858,54 @@ class Bounds:
         if k == 'ParenExpr':
             return self._ev(K[0], point, depth)
         return B().clamp_type(tr)
+
+    def _param_entry(self, X, depth):
+        """numeric range of parameter X of a static function at entry: the join of what its callers pass (every caller is visible: the function is static and
+        its address is never taken).  Symbolic bounds do not cross the call (other namespace).  None when X is no such parameter or nothing finite comes out."""
+        f = self.fn
+        if not f.static or depth > MAXD - 2:
+            return None
+        idx = [i for i, p_ in enumerate(f.params) if p_['n'] == X]
+        if not idx:
+            return None
+        prog = self.prog
+        cache = prog.__dict__.setdefault('_param_ranges', {})
+        key = (f.name, f.file, X)
+        if key in cache:
+            return cache[key]
+        cache[key] = None                      # recursion guard: a cycle contributes nothing
+        sites = []
+        for g in prog.all_fns():
+            if g.file != f.file:
+                continue
+            for x in g.walk():
+                if x['k'] == 'DeclRefExpr' and x.get('n') == f.name:
+                    par = g.N[g.parent[x['id']]]
+                    while par['k'] in ('ImplicitCastExpr', 'ParenExpr'):
+                        x, par = par, g.N[g.parent[par['id']]]
+                    if par['k'] != 'CallExpr' or par['kids'][0] != x['id']:
+                        return None            # address taken: unknown callers
+                    sites.append((g, par))
+        if not sites:
+            return None
+        res = []
+        for g, c in sites:
+            a = g.args(c)
+            if idx[0] >= len(a):
+                return None
+            pt = g.cfg.point(c)
+            if pt is None:
+                continue                       # unreachable call
+            bd = self if g is f else Bounds(prog, g, self.eff if hasattr(self, 'eff') else None)
+            b = bd.ev(g.N[a[idx[0]]] if isinstance(a[idx[0]], int) else a[idx[0]], pt)
+            if b.bot or (b.lo is None and b.hi is None):
+                return None
+            res.append(B(b.lo, b.hi))
+        if not res:
+            return None
+        r = join(res)
+        cache[key] = r
+        return r
 
     def _ret_range(self, cal):
         """numeric range of what a library function can return, whatever its arguments: join over its return statements, each evaluated
